@@ -4,16 +4,54 @@ import os
 
 VERIF = os.path.dirname(os.path.dirname(os.path.abspath(__file__)))
 
+SEQ_NOTE = ("program space bounded by the cfg constants (length, behaviour alphabet); value type int, error type StopError; "
+            "trusted: TLC, the harness interpreter (harness/sc_pipeline.cpp)")
+CONC_NOTE = ("sequentially consistent interleavings of yaclib_std operations in the FIBER backend; 2-3 threads; trusted: TLC, the "
+             "YACLIB_VERIF hooks, the harness controller")
+
 CLAIMED = {
     "C01": dict(
         text="TLC checks UniqueCore.tla (one action per yaclib_std operation) exhaustively for every producer kind x consumer kind; "
              "every interleaving of the real code at that granularity is executed under a controlled FIBER scheduler and each "
              "recorded execution is validated against the specification by TLC with all invariants and an abstract monitor of "
              "the observable contract; all behaviours of the bounded model are replayed on the code.",
-        note="sequentially consistent interleavings of yaclib_std operations in the FIBER backend; 2 threads; trusted: TLC, the "
-             "YACLIB_VERIF hooks, the harness controller",
-        design="7/C01", technique="TLA+ spec + TLC model checking; exhaustive schedule enumeration on the code with TLC trace "
-                                  "validation; replay of TLC behaviours"),
+        note=CONC_NOTE, design="7/C01",
+        technique="TLA+ spec + TLC model checking; exhaustive schedule enumeration on the code with TLC trace validation; "
+                  "replay of TLC behaviours"),
+    "C02": dict(
+        text="Pipeline.tla is a TLA+ reference interpreter transcribed from the property's sentences; TLC enumerates every "
+             "program up to the length bound with its expected Result and invoked-callback list and checks the interpreter's "
+             "meta-properties; every enumerated program is executed on the real Future/Task API and compared.",
+        note=SEQ_NOTE, design="7/C02", technique="TLA+ reference interpreter; TLC-enumerated programs replayed on the code"),
+    "C03": dict(
+        text="Ownership ghost state (alive / freed-by, use-after-free and double-free flags, released-at-quiescence) is part of "
+             "every concurrent specification and is model checked by TLC; on the code side every interleaving of the bounded "
+             "scenarios is executed with instrumented payloads, functor captures and operator new/delete accounting and "
+             "validated against the specification.",
+        note=CONC_NOTE, design="7/C03", technique="TLC invariants on ownership ghost state + trace validation with accounting"),
+    "C04": dict(
+        text="MemModel.tla implements C++20 happens-before (release sequences, RMW continuation, fences) as specification "
+             "state; every concurrent specification instantiates it; the memory order of every atomic operation is recorded "
+             "from the running code and drives the model both in trace validation and in the bounded model check, so TLC "
+             "reports a race exactly when the orders the code passes do not order the transcribed plain accesses.",
+        note="plain accesses are transcribed by hand; SC exploration with vector clocks (races of SC executions); weak "
+             "behaviours only on the model; " + CONC_NOTE, design="7/C04",
+        technique="TLA+ happens-before model driven by memory orders extracted from the code; TLC"),
+    "C05": dict(
+        text="Pipeline.tla carries per-step executor placement, inherited executors and a rejection point per executor; TLC "
+             "enumerates programs x executor choices x rejection points with expected submissions, Call/Drop counts and "
+             "placement and checks Called-xor-Dropped on the interpreter; every program is executed on the real API with "
+             "instrumented executors.",
+        note=SEQ_NOTE, design="7/C05", technique="TLA+ reference interpreter; TLC-enumerated programs replayed on the code"),
+    "C12": dict(
+        text="Pipeline.tla in lazy mode: TLC enumerates lazy programs x six ways of starting/abandoning, checks on the "
+             "interpreter that a started Task equals its eager twin and that cancellation runs no value callback, and every "
+             "program is executed on the real Task API (nothing may run before the start).",
+        note=SEQ_NOTE, design="7/C12", technique="TLA+ reference interpreter; TLC-enumerated programs replayed on the code"),
+    "C20": dict(
+        text="Pipeline.tla carries a cost annotation (one allocation per step plus the inner objects a callback creates); "
+             "TLC prints the bound per program and operator new is counted while the real API executes the program.",
+        note=SEQ_NOTE, design="7/C20", technique="TLA+ cost annotation; TLC-enumerated programs measured on the code"),
 }
 
 PENDING = ["C02", "C03", "C04", "C05", "C06", "C07", "C08", "C09", "C10", "C11", "C12", "C13", "C14", "C15", "C16", "C17",
@@ -61,6 +99,7 @@ def main():
 
 
 HOOK_COMMITS = ["286d692", "d1e7f53"]
+FIX_COMMITS = ["ef56e8f"]
 
 if __name__ == "__main__":
     main()
